@@ -148,10 +148,7 @@ func main() {
 	writeModule(tmp, *repoFlag, hdir)
 
 	// gozodgen from the library tree
-	gen := filepath.Join(tmp, "gozodgen")
-	if out, rc, _ := goRun(*repoFlag, 10*time.Minute, "go", "build", "-o", gen, "./cmd/gozodgen"); rc != 0 {
-		die("gozodgen does not build:\n%s", out)
-	}
+	gen := buildGen(*repoFlag, tmp) // + an overlaid hook file (wide.go); inert unless GOZODGEN_VERIF_RULES is set
 
 	phase("gozodgen built")
 	cells := matrixCells()
@@ -241,6 +238,11 @@ func main() {
 		o.Count("quote:" + strings.SplitN(obs, "=", 2)[0])
 	}
 	writeGenTable(filepath.Join(c.OutDir, "gentable.json"), cells)
+	phase("matrix emitted")
+	emitSplit(o, gen, rng, c.Thorough())
+	phase("splitter correspondence")
+	runWide(o, tmp, gen, rng, c.Thorough())
+	phase("wide programs")
 	if err := o.Close(nil); err != nil {
 		die("%v", err)
 	}
